@@ -13,6 +13,7 @@ EXPLANATION = ("taxable(t) from the statement (seven earn types on IN; every OUT
 TRUSTED = ["A-ANNOT", "A-REAL (one product fee*spot)", "amounts lie on the 1e-11 grid (documented format; established by the parser, C11)",
            "dateutil.parser.parse assumed total-or-raising", "Configuration membership sets as parsed"]
 ASSUMPTIONS = TRUSTED
+E2E = {"quick": 60, "thorough": 2000, "on_doubt": 400}
 TX = ["rp2.in_transaction.InTransaction", "rp2.out_transaction.OutTransaction", "rp2.intra_transaction.IntraTransaction"]
 
 
@@ -23,6 +24,8 @@ def items(pr):
             out.append(fn(f"{c}.{m}"))
     out.append(fn("rp2.gain_loss.GainLoss.__init__"))
     out.append(fn("rp2.gain_loss.GainLoss.fiat_cost_basis"))
+    out.append(fn("rp2.tax_engine._create_unfiltered_taxable_event_set"))
+    out.append(fn("rp2.transaction_set.TransactionSet.add_entry"))
     out.append(custom("enum_members", enum_members))
     return out
 
